@@ -150,7 +150,7 @@ class NetScenario(Scenario):
 
 
 class RefServer(Peer):
-    """Scripted RFC 7252 server.  Reply mode per request: piggyback (default) | sepcon | sepnon | silent.
+    """Scripted RFC 7252 server.  Reply mode per request: piggyback (default) | sepcon | sepnon | respfirst | silent.
     The response payload names the request it answers: b'<name>|<first Uri-Path>|<token hex>'.
     Duplicate requests (same source and mid) are answered by repeating the first reply."""
 
@@ -169,7 +169,7 @@ class RefServer(Peer):
             return False
         if (dg.src, (d[2] << 8) | d[3]) in self.seen:
             return False
-        if var == "sepcon" or var == "silent" or var == "sepnon":
+        if var in ("sepcon", "silent", "sepnon", "respfirst"):
             return True
         return False
 
@@ -208,6 +208,11 @@ class RefServer(Peer):
             first = [(rc.ACK, 69, mid, token, [], body)]
             for m in first:
                 self.send(src, m)
+        elif mode == "respfirst":
+            # the separate response overtakes the empty ACK (RFC 7252 section 5.2.2: it then also confirms the request)
+            first = [(rc.ACK, 0, mid, b"", [], b"")]
+            self.send(src, (rc.CON, 69, self.mid(), token, [], body))
+            self.send(src, first[0])
         else:
             first = [(rc.ACK, 0, mid, b"", [], b"")]
             self.send(src, first[0])
